@@ -23,8 +23,11 @@ tvars == <<l, wit>>
 AddWit(w, sigs, c) == w \cup {[sig |-> s, case |-> c] : s \in {x \in sigs : ~\E r \in w : r.sig = x}}
 
 Judge(e) ==
-  LET name == e.op.op
-      sh == ShapeClass(e.b)
+  \* a construction is named by its entry point and classified by its arguments (there is no table before it)
+  \* a formatting call is named by the call itself
+  LET name == IF e.op.op = "Create" THEN "Create:" \o e.op.via
+              ELSE IF e.op.op \in {"CellFmt", "TblFmt"} /\ "f" \in DOMAIN e.op THEN e.op.f ELSE e.op.op
+      sh == IF e.op.op = "Create" THEN CreateClass(e.op) ELSE ShapeClass(e.b)
   IN  {<<"C09", name, sh, f>> : f \in Viol_Step(e.b, e.op, e.ret, e.a)}
       \cup (IF name = "ReadAll" /\ e.ret # "panic" THEN
                {<<"C09", "Iterator", sh, f>> : f \in Viol_Read(e.b, e.rd.it)}
